@@ -324,6 +324,15 @@ pub fn c11(tier: &str, seed: u64) -> Vec<Case> {
         if r.chance(1, 4) { b[11] = 1; b.extend_from_slice(&[0, 0, 41, 2, 0, r.next() as u8, r.next() as u8, 0, 0, 0, 0]); }
         inputs.push((b, "header-word".to_string()));
     }
+    // accepted messages beyond 16 KiB in which names first appear past offset 16383 and repeat
+    for (k, (p, _)) in boundary_packets(tier).into_iter().enumerate() {
+        if k % 3 != 0 { continue; }
+        let mut q = p.clone();
+        // a name that first occurs beyond 16383, twice
+        let late = crate::gen::mk_name(&[b"late".to_vec(), b"name".to_vec(), vec![b'k'; 1 + k % 5]]);
+        for _ in 0..2 { q.additional_records.push(ResourceRecord::new(late.clone(), CLASS::IN, 9, rdata::RData::A(rdata::A { address: 7 }))); }
+        if let Ok(b) = q.build_bytes_vec() { inputs.push((b, "beyond-16383".to_string())); }
+    }
     // corpus: a 65 535-byte message whose RRSIG signer name is a pointer into the record's own fixed
     // RDATA bytes, laid out so that the decoder reads them twice (overlapping labels): 2 bytes on the
     // wire expand to a 32-byte name and the re-encoded RDATA needs 65 542 bytes
